@@ -16,6 +16,7 @@ Fault kinds at this layer (DESIGN 2.3):
 import builtins
 import errno
 import io
+import os
 
 from .core import SimCrash
 
@@ -23,7 +24,13 @@ PREFIX = "sim:/"
 
 
 def is_sim(path):
+    if isinstance(path, os.PathLike):
+        path = os.fspath(path)
     return isinstance(path, str) and path.startswith(PREFIX)
+
+
+def as_key(path):
+    return os.fspath(path) if isinstance(path, os.PathLike) else path
 
 
 class SimDisk:
@@ -171,7 +178,7 @@ class SimFS:
             return self._open_path(path, mode, encoding, errors, newline, no_truncate=True)
         if not is_sim(file):
             return builtins.open(file, mode, buffering, encoding, errors, newline, closefd, opener)
-        return self._open_path(file, mode, encoding, errors, newline)
+        return self._open_path(as_key(file), mode, encoding, errors, newline)
 
     def _open_path(self, file, mode, encoding=None, errors=None, newline=None, no_truncate=False):
         self.opens.append((file, mode))
